@@ -267,8 +267,6 @@ class VCSAPI:
             # pylint:disable=consider-using-with
             tmp_file = tempfile.NamedTemporaryFile("wb", delete=False)
             try:
-                assert " " not in tmp_file.name
-
                 fobj: typ.IO[bytes]
 
                 with tmp_file as fobj:
